@@ -777,6 +777,9 @@ func runC15(env *core.Env) {
 		secs := int64(rng.Intn(86400))
 		micros := int64(rng.Intn(1000000))
 		tz := tzs[rng.Intn(len(tzs))]
+		if days <= -719162 || days >= 2932896 {
+			tz = "Z" // an offset would push the local date outside 0001..9999: not a FHIR value
+		}
 		for p := int32(1); p <= 6; p++ {
 			us := (days*86400 + secs) * 1000000
 			n++
